@@ -13,6 +13,86 @@ TRUSTED = ("Trusted base: the abra_verif hooks in abra_core (controller seam in 
            "without the ffi feature (single OS thread; the simulator is the only scheduler).")
 
 CLAIMED = {
+    "C01": dict(
+        category="exploration",
+        technique="deterministic simulation: repository corpus + all generated workload families under every simulated fault kind at once (seeded step budgets, host-call deferral, controller-driven collector pacing); fault oracle = panic / abort / internal error kind / quarantine hit / stack desync",
+        text=("The schedule dimension of the property: every program of the repository corpus that compiles (raw-string programs of the e2e and "
+              "thread tests, import-free examples; extracted from the current tree at check time) and generated programs of every workload family "
+              "(channels and tasks, captures, collector-heavy mutators, array histories, string cases, host-call traffic) are run under sampled step "
+              "budgets (including 0 and u32::MAX), host-call deferrals and collector pacings. A run violates the property if a Rust panic escapes "
+              "run_n_steps, host servicing or Drop, the cell process dies, an internal error kind is reported, a reclaimed object is touched "
+              "(quarantine) or a reachable object is reclaimed; documented runtime errors are legal outcomes. The same oracle is evaluated in every "
+              "run of every other claimed property. Not covered: a typed grammar over every statement / expression form (program-shape half of the "
+              "quantifier) - shapes come from the corpus and the generators only."),
+        design_ref="DESIGN.md section 8 (C01)"),
+    "C06": dict(
+        category="fault_enumeration",
+        technique="deterministic simulation with collector-schedule fault injection: exhaustive sweep of the start point of a single collection cycle (x 4 increment shapes) over small mutator programs, seeded multi-cycle pacings over large ones; oracles: reachability self-check at sweep end, quarantine, collector-off reference run",
+        text=("Generated mutator programs dense in move patterns (pop-and-store across containers inside callees, get-then-overwrite, struct / enum / "
+              "closure / option churn, iteration with allocation), plus array, string and channel workloads. For every small program a single "
+              "collection cycle is started at EVERY instruction of the execution, crossed with four increment shapes (1 mark + 1 sweep per "
+              "instruction; full mark then 1 sweep; 1 mark then full sweep; everything at once = production shape). Larger programs get sampled "
+              "multi-cycle pacings (one increment per instruction, full cycle per instruction, starve-then-finish, sparse / dense / targeted random "
+              "starts, production heuristic plus forced starts) crossed with step budgets and host stalls. Violation: an object reachable from the "
+              "operand stack or an in-flight string operand has been reclaimed when a sweep completes (independent trace), any later access to a "
+              "reclaimed object (quarantine), or any observable difference from the collector-off run."),
+        design_ref="DESIGN.md section 8 (C06)"),
+    "C07": dict(
+        category="exploration",
+        technique="deterministic simulation with lifecycle fault injection: runtimes dropped at seeded instants (mid-mark, mid-sweep, mid string op, tasks parked / blocked, messages queued, host call abandoned) repeated six times under a counting global allocator; interleaved multi-runtime create/run/drop histories; quiescent-full-collection completeness vs collector-off run; peak heap at N vs 4N under production pacing",
+        text=("(a) A runtime life (create, run under a sampled schedule, drop at a sampled instruction) is executed six times from its recorded trace; "
+              "process live bytes (counting #[global_allocator]) must not keep growing over the last four iterations - whatever the drop instant. "
+              "Interleaved histories of up to four runtimes (production pacing) get the same treatment. (b) After a run under any pacing (or at a "
+              "sampled intermediate point for task-free programs) two quiescent full collections must leave exactly as many live objects as after the "
+              "collector-off run to the same point. (c) Programs whose reachable set is constant by construction (ring buffer, reset accumulator, a "
+              "task per iteration, struct/closure churn, request/response with heap messages, table rebuilt in place) take their size N from the host; "
+              "peak VM heap and peak process memory at 4N must stay within 1.25x (+4 KiB) resp. 1.5x (+256 KiB) of the peak at N under the real pacing "
+              "heuristic and several constant budgets."),
+        design_ref="DESIGN.md section 8 (C07)"),
+    "C08": dict(
+        category="exploration",
+        technique="deterministic simulation: seeded capture programs (10 value kinds, nested, up to 4 captures) with mutations on both sides in both orders separated by stall points, under seeded budgets, host stalls and collector pacings; generator model of what each side must see",
+        text=("For each capturable kind (array<int>, array<string>, nested arrays, struct with array field, tuple with array, enum with array payload, "
+              "string, closure capturing an array, option<array>, int) the program spawns a task capturing 1-4 values, mutates them on the task side "
+              "and on the spawner side (either order, enforced through channels, with pause() stall points in between) and reports both views. "
+              "Variants drop the spawner's references and force its collector while the task still uses its copies, and the other way round. "
+              "Oracles: the generator's model (task sees the value as of the spawn, neither side sees the other's later mutations), equality with the "
+              "reference run, the fault oracle (quarantine catches structure shared between the two heaps once one side reclaims it)."),
+        design_ref="DESIGN.md section 8 (C08)"),
+    "C09": dict(
+        category="exploration",
+        technique="deterministic simulation: seeded producer/consumer programs (7 shapes x 8 value kinds) under seeded budgets, host stalls, collector pacings, task death and task failure; FIFO reference model checked at every channel event; starvation invariant on the event stream; quarantine for values outliving their writer",
+        text=("Shapes: pipeline, fan-in, writer-dies-first (writer finished and freed, or alive but collected, before the read; reader then mutates and "
+              "re-sends), request/response, independence (writer keeps, mutates and re-sends what it sent; reader mutates and returns it), main "
+              "leaves early, failing task. Every written value is unique. Online oracles on the hook event stream: per-channel FIFO model (a read "
+              "returns exactly the oldest unread written value by structural digest; a read finds the channel empty only if the model queue is empty; "
+              "nothing is read twice), every runnable task gets a turn within 4 x (tasks+1) scheduler turns while others are blocked or parked. "
+              "Offline: generator model of all observations (multiset for fan-in), drained channels, completion within a generous bound once faults "
+              "stop, reference-run equality, fault oracle."),
+        design_ref="DESIGN.md section 8 (C09)"),
+    "C10": dict(
+        category="exploration",
+        technique="deterministic simulation over embedder slicing: every constant budget 1..=64 and a two-phase budget grid for short task-free programs, seeded budget sequences (incl. 0 and u32::MAX) and host-call deferrals otherwise; output / final value / full error text compared with the reference slicing",
+        text=("Part 1 (no tasks): corpus programs, string cases, array histories and host-call/status programs (each runtime error kind raised three "
+              "calls deep). Programs of at most 400 instructions are run at every constant budget 1..=64 and on a grid of two-phase budgets (k1 until "
+              "instruction j, then k2); all programs get sampled budget sequences with zero-budget calls and deferred host calls. Compared with the "
+              "reference slicing (one call, immediate service): every host call with its arguments in order, final value, complete error text "
+              "(kind, location, traceback). Part 2: channel programs of the determinate shapes that print only from main, with sampled budgets and "
+              "delays of main's host calls; main's output must equal the reference. The collector runs under its production heuristic in all C10 "
+              "runs so that a difference is attributable to slicing alone."),
+        design_ref="DESIGN.md section 8 (C10)"),
+    "C11": dict(
+        category="exploration",
+        technique="deterministic simulation: shadow model of RuntimeStatus fed by hook events, checked after every run_n_steps call under seeded budgets / host deferrals / collector pacings; real generated host bindings for an echo family with generator-known arguments and results",
+        text=("After every run_n_steps(k) call: at most k instructions executed (counted from the event stream) and steps_consumed <= k; Done exactly "
+              "from the call in which main executes its last instruction onward (kept under further calls), never before, never after a failure; "
+              "MainThreadError(kind) exactly from the call in which main fails, with the kind the VM raised; PendingHostFunc only while some task is "
+              "parked, and always while main itself is parked; the value of a final expression statement equals the generator-known value. Host "
+              "calls go through the code the repository generates for simhost.abra: the arguments the host receives (ints, floats, bools, strings, "
+              "arrays, nested arrays, options, results, a host struct, a host enum, a 4-tuple) must equal the generator-known ones in order, and the "
+              "program must then observe exactly the transformed value the host returned - under any deferral, budget and collector phase. Programs "
+              "include main finishing while other tasks run, block, are parked or have failed."),
+        design_ref="DESIGN.md section 8 (C11)"),
     "C17": dict(
         category="fault_enumeration",
         technique="deterministic simulation: seeded embedder (step budgets, host stalls) + controller-driven collector pacing; exhaustive sweep of constant budgets and of cycle start points inside every string instruction for small programs; Rust byte-string model",
@@ -68,7 +148,7 @@ NOT_APPLICABLE = {
     "C38": "single-threaded in-memory arena; no concurrency, time, I/O or crash surface",
 }
 
-PENDING = {k: "applicable (see DESIGN.md section 2); its check is not built yet in this revision" for k in ["C01", "C06", "C07", "C08", "C09", "C10", "C11"]}
+PENDING = {}
 
 def main():
     checks = []
